@@ -20,47 +20,68 @@ pub fn stub_fmt_write(
 }
 
 // Recorder for `flume::Sender<StatType>::send`
-pub static mut SENT_TOTAL: u32 = 0;
-pub static mut SENT_ERRORS: u32 = 0;
-pub static mut SENT_FATAL: u32 = 0;
-pub static mut SENT_OTHER: u32 = 0;
-pub static mut SENT_ERR_NONEMPTY: bool = true;
-pub static mut SENT_LAYER_STAVE: u32 = 0;
-pub static mut LAST_LAYER_STAVE: (u8, u8) = (0, 0);
+// All recorder state lives in ONE static with a unique marker field. Kani 0.68 was found to place a
+// zero-initialised 8-byte `static mut` in the same allocation as the std constant `RawVec::ZERO_CAP`
+// (minimal reproduction in DESIGN.md §2): writing the static then changes the capacity of every `Vec::new()`.
+// A struct whose initial bytes are unique cannot coincide with any constant allocation.
+pub struct Recorder {
+    pub marker: u64,
+    pub total: u32,
+    pub errors: u32,
+    pub fatal: u32,
+    pub other: u32,
+    pub err_nonempty: bool,
+    pub layer_stave: u32,
+    pub last_layer_stave: (u8, u8),
+    pub last_msg: [u8; 24],
+    pub last_msg_len: usize,
+}
+pub static mut REC: Recorder = Recorder {
+    marker: 0x5EED_0000_0000_0001,
+    total: 0,
+    errors: 0,
+    fatal: 0,
+    other: 0,
+    err_nonempty: true,
+    layer_stave: 0,
+    last_layer_stave: (0, 0),
+    last_msg: [0; 24],
+    last_msg_len: 0,
+};
 
 pub fn stub_send<T>(_s: &flume::Sender<T>, msg: T) -> Result<(), flume::SendError<T>> {
     // Every Sender reached from fastpasta harnesses carries StatType.
     assert!(core::mem::size_of::<T>() == core::mem::size_of::<StatType>());
     let st: &StatType = unsafe { &*(&msg as *const T as *const StatType) };
     unsafe {
-        SENT_TOTAL += 1;
+        REC.total += 1;
         match st {
             StatType::Error(m) => {
-                SENT_ERRORS += 1;
+                REC.errors += 1;
                 if m.is_empty() {
-                    SENT_ERR_NONEMPTY = false;
+                    REC.err_nonempty = false;
                 }
             }
-            StatType::Fatal(_) => SENT_FATAL += 1,
+            StatType::Fatal(_) => REC.fatal += 1,
             StatType::LayerStaveSeen { layer, stave } => {
-                SENT_LAYER_STAVE += 1;
-                LAST_LAYER_STAVE = (*layer, *stave);
-                SENT_OTHER += 1;
+                REC.layer_stave += 1;
+                REC.last_layer_stave = (*layer, *stave);
+                REC.other += 1;
             }
-            _ => SENT_OTHER += 1,
+            _ => REC.other += 1,
         }
     }
     Ok(())
 }
 
 pub fn sent_errors() -> u32 {
-    unsafe { SENT_ERRORS }
+    unsafe { REC.errors }
 }
 pub fn sent_total() -> u32 {
-    unsafe { SENT_TOTAL }
+    unsafe { REC.total }
 }
 pub fn sent_fatal() -> u32 {
-    unsafe { SENT_FATAL }
+    unsafe { REC.fatal }
 }
 
 /// A `Sender` that is never dereferenced (send is stubbed); must be `mem::forget`-ed.
@@ -305,8 +326,6 @@ pub fn stub_format_nonempty(_args: core::fmt::Arguments<'_>) -> String {
 }
 
 // ------------------------------------------------------------------ message capture (sampled rendering checks)
-pub static mut LAST_MSG: [u8; 24] = [0; 24];
-pub static mut LAST_MSG_LEN: usize = 0;
 
 /// like stub_send, additionally keeps the first 24 bytes of the last Error message
 pub fn stub_send_capture<T>(s: &flume::Sender<T>, msg: T) -> Result<(), flume::SendError<T>> {
@@ -317,10 +336,10 @@ pub fn stub_send_capture<T>(s: &flume::Sender<T>, msg: T) -> Result<(), flume::S
             let n = if b.len() < 24 { b.len() } else { 24 };
             let mut i = 0;
             while i < n {
-                unsafe { LAST_MSG[i] = b[i] };
+                unsafe { REC.last_msg[i] = b[i] };
                 i += 1;
             }
-            unsafe { LAST_MSG_LEN = n };
+            unsafe { REC.last_msg_len = n };
         }
     }
     stub_send(s, msg)
@@ -328,13 +347,13 @@ pub fn stub_send_capture<T>(s: &flume::Sender<T>, msg: T) -> Result<(), flume::S
 
 /// the message starts with `0x<UPPERCASE HEX OFFSET>: ` — the form the error sorter's regex `^0x[0-9A-F]+` parses
 pub fn last_msg_starts_with(prefix: &[u8]) -> bool {
-    let n = unsafe { LAST_MSG_LEN };
+    let n = unsafe { REC.last_msg_len };
     if n < prefix.len() {
         return false;
     }
     let mut i = 0;
     while i < prefix.len() {
-        if unsafe { LAST_MSG[i] } != prefix[i] {
+        if unsafe { REC.last_msg[i] } != prefix[i] {
             return false;
         }
         i += 1;
